@@ -92,6 +92,8 @@ class _SubReport:
     def __init__(self, rep, keep):
         self.rep, self.keep = rep, keep
         self.extra = rep.extra
+        self.assumptions = []
+        self.explanation = ""
 
     def _k(self, rule):
         return any(rule.startswith(k) for k in self.keep)
